@@ -16,6 +16,7 @@
 #include <cstddef>
 #include <cstring>
 #include <functional>
+#include <memory>
 #include <mutex>
 #include <stdexcept>
 #include <string>
@@ -42,6 +43,8 @@ struct vt_deadlock : std::runtime_error
 struct vt_world
 {
     int size = 1;
+    int base = 0;                 // world rank of this communicator's rank 0
+    int absent = 0;               // ranks that exist only as numbers (padding of the world): they never arrive anywhere
     unsigned long long seed = 0;
     bool trace = true;            // log Enter/Leave events
     std::mutex m;
@@ -62,16 +65,17 @@ struct vt_world
 
 typedef vt_world* MPI_Comm;
 
+// rank of this thread in the communicator its body was started with
 inline int& vt_this_rank() { static thread_local int r = 0; return r; }
-// MPI_COMM_WORLD: the communicator a run is given may be a *sub*-communicator of the world (as after MPI_Comm_split):
-// the world rank of a thread is its communicator rank plus an offset, the world is larger by the same amount on each side
-inline int& vt_world_offset() { static thread_local int o = 0; return o; }
-inline int& vt_world_extra() { static thread_local int e = 0; return e; }
-#define MPI_COMM_WORLD ((vt_world*) 0)
+// MPI_COMM_WORLD: the communicator a run is given may be a *sub*-communicator of the world (as after MPI_Comm_split).  The world is
+// an object of its own, shared by all threads of a run; a thread's world rank is the base of its communicator plus its rank there.
+inline int& vt_world_rank() { static thread_local int r = 0; return r; }
+inline vt_world*& vt_the_world() { static thread_local vt_world* w = nullptr; return w; }
+#define MPI_COMM_WORLD (vt_the_world())
 
-inline int MPI_Comm_rank(MPI_Comm c, int* rank) { *rank = c ? vt_this_rank() : vt_this_rank() + vt_world_offset(); return MPI_SUCCESS; }
-inline int& vt_comm_size() { static thread_local int n = 1; return n; }
-inline int MPI_Comm_size(MPI_Comm c, int* size) { *size = c ? c->size : vt_comm_size() + 2 * vt_world_offset(); return MPI_SUCCESS; }
+inline int vt_rank_in(MPI_Comm c) { return vt_world_rank() - c->base; }
+inline int MPI_Comm_rank(MPI_Comm c, int* rank) { *rank = vt_rank_in(c); return MPI_SUCCESS; }
+inline int MPI_Comm_size(MPI_Comm c, int* size) { *size = c->size; return MPI_SUCCESS; }
 
 inline std::size_t vt_type_size(int t)
 {
@@ -103,10 +107,11 @@ inline void vt_sum_into(std::vector<unsigned char>& acc, std::vector<void*> cons
     if (count) std::memcpy(acc.data(), r.data(), acc.size());
 }
 
-inline int MPI_Allreduce(void const* sendbuf, void* recvbuf, int count, MPI_Datatype type, MPI_Op, MPI_Comm c)
+// kind 0: allreduce (sum), kind 1 + root: broadcast from root, kind -1: barrier
+inline int vt_collective(int kind, void* recvbuf, int count, MPI_Datatype type, MPI_Comm c)
 {
-    int const rank = vt_this_rank();
-    if (sendbuf != MPI_IN_PLACE) throw std::logic_error("shim: only MPI_IN_PLACE is supported");
+    int const rank = vt_rank_in(c);
+    if (rank < 0 || rank >= c->size) throw std::logic_error("shim: collective on a communicator the caller is not a member of");
     // perturb arrival order deterministically
     {
         unsigned long long h = (c->seed + 0x9E37ULL * (unsigned long long) (rank + 1)) * 6364136223846793005ULL +
@@ -122,14 +127,14 @@ inline int MPI_Allreduce(void const* sendbuf, void* recvbuf, int count, MPI_Data
     unsigned long long const my_epoch = c->epoch;
     c->bufs[(std::size_t) rank] = recvbuf;
     c->counts[(std::size_t) rank] = count;
-    c->types[(std::size_t) rank] = type;
+    c->types[(std::size_t) rank] = type + 100 * (kind + 1);   // the signature includes the kind of collective (and the root)
     ++c->arrived;
     if (c->arrived == c->size)
     {
         // signature check: all ranks must have entered the same collective
         bool same = true;
         for (int r = 0; r != c->size; ++r)
-            same = same && c->counts[(std::size_t) r] == count && c->types[(std::size_t) r] == type;
+            same = same && c->counts[(std::size_t) r] == count && c->types[(std::size_t) r] == type + 100 * (kind + 1);
         if (!same)
         {
             if (c->trace) vt::ev("Mismatch").i("epoch", (long long) my_epoch).i("g", ++c->gseq).emit();
@@ -142,6 +147,13 @@ inline int MPI_Allreduce(void const* sendbuf, void* recvbuf, int count, MPI_Data
         vt::rng g(c->seed * 1315423911ULL + my_epoch);
         for (int r = c->size - 1; r > 0; --r) std::swap(order[(std::size_t) r], order[(std::size_t) g.below((unsigned) r + 1)]);
         std::vector<unsigned char>& acc = c->result[my_epoch & 1];
+        if (kind >= 1)
+        {
+            acc.resize(vt_type_size(type) * (std::size_t) count);
+            if (count) std::memcpy(acc.data(), c->bufs[(std::size_t) (kind - 1)], acc.size());
+        }
+        else if (kind < 0) acc.clear();
+        else
         switch (type)
         {
         case MPI_FLOAT: vt_sum_into<float>(acc, c->bufs, order, count); break;
@@ -162,7 +174,7 @@ inline int MPI_Allreduce(void const* sendbuf, void* recvbuf, int count, MPI_Data
         {
             if (c->epoch != my_epoch) break;
             if (c->dead) throw vt_deadlock();
-            if (c->arrived + c->done >= c->size && c->done > 0)
+            if (c->arrived + c->done + c->absent >= c->size && c->done + c->absent > 0)
             {
                 // everybody else has finished or is waiting here: nobody can release us
                 if (c->trace) vt::ev("Deadlock").i("rank", rank).i("seq", myseq).i("g", ++c->gseq).emit();
@@ -180,33 +192,70 @@ inline int MPI_Allreduce(void const* sendbuf, void* recvbuf, int count, MPI_Data
     return MPI_SUCCESS;
 }
 
+inline int MPI_Allreduce(void const* sendbuf, void* recvbuf, int count, MPI_Datatype type, MPI_Op, MPI_Comm c)
+{
+    if (sendbuf != MPI_IN_PLACE) throw std::logic_error("shim: only MPI_IN_PLACE is supported");
+    return vt_collective(0, recvbuf, count, type, c);
+}
+inline int MPI_Bcast(void* buf, int count, MPI_Datatype type, int root, MPI_Comm c) { return vt_collective(1 + root, buf, count, type, c); }
+inline int MPI_Barrier(MPI_Comm c) { int dummy = 0; return vt_collective(-1, &dummy, 0, MPI_UNSIGNED, c); }
+#define MPI_INT MPI_UNSIGNED
+#define MPI_C_BOOL MPI_UNSIGNED
 inline int MPI_Init(int*, char***) { return MPI_SUCCESS; }
 inline int MPI_Finalize() { return MPI_SUCCESS; }
 
-// run `body(rank)` on `size` threads as the ranks of a fresh world; returns true iff no deadlock
+// run `body(comm, rank)` on threads as the ranks of fresh communicators, one per group (sizes[g] ranks each), all of them members of
+// one world (MPI_COMM_WORLD) whose ranks are numbered group after group, `pad` non-existent ranks before the first and after the last
+// group; returns true iff no deadlock
+inline bool vt_mpi_run_groups(std::vector<int> const& sizes, unsigned long long seed,
+    std::function<void(MPI_Comm, int, int)> const& body, bool trace = true, int pad = 0)
+{
+    int total = 2 * pad;
+    for (int n : sizes) total += n;
+    vt_world world(total, seed ^ 0x5bd1e995ULL);
+    world.trace = false;
+    world.absent = 2 * pad;
+    std::vector<std::unique_ptr<vt_world>> groups;
+    int base = pad;
+    for (std::size_t g = 0; g != sizes.size(); ++g)
+    {
+        groups.emplace_back(new vt_world(sizes[g], seed + 7919ULL * g));
+        groups.back()->base = base;
+        groups.back()->trace = trace;
+        base += sizes[g];
+    }
+    std::vector<std::thread> ts;
+    for (std::size_t g = 0; g != sizes.size(); ++g)
+        for (int r = 0; r != sizes[g]; ++r)
+        {
+            vt_world* w = groups[g].get();
+            ts.emplace_back([&, w, g, r] {
+                vt_this_rank() = r;
+                vt_world_rank() = w->base + r;
+                vt_the_world() = &world;
+                try { body(w, (int) g, r); }
+                catch (vt_deadlock const&) {}
+                {
+                    std::lock_guard<std::mutex> lk(w->m);
+                    ++w->done;
+                    w->cv.notify_all();
+                }
+                std::lock_guard<std::mutex> lk(world.m);
+                ++world.done;
+                world.cv.notify_all();
+            });
+        }
+    for (auto& t : ts) t.join();
+    bool ok = !world.dead;
+    for (auto const& w : groups) ok = ok && !w->dead;
+    return ok;
+}
+
+// one communicator of `size` ranks (the world itself unless world_offset > 0: then a sub-communicator of a larger world)
 inline bool vt_mpi_run(int size, unsigned long long seed, std::function<void(MPI_Comm, int)> const& body,
     bool trace = true, int world_offset = 0)
 {
-    vt_world w(size, seed);
-    w.trace = trace;
-    std::vector<std::thread> ts;
-    std::vector<int> dead((std::size_t) size, 0);
-    for (int r = 0; r != size; ++r)
-    {
-        ts.emplace_back([&, r] {
-            vt_this_rank() = r;
-            vt_world_offset() = world_offset;
-            vt_comm_size() = size;
-            try { body(&w, r); }
-            catch (vt_deadlock const&) { dead[(std::size_t) r] = 1; }
-            std::lock_guard<std::mutex> g(w.m);
-            ++w.done;
-            w.cv.notify_all();
-        });
-    }
-    for (auto& t : ts) t.join();
-    bool ok = !w.dead;
-    return ok;
+    return vt_mpi_run_groups(std::vector<int>{size}, seed, [&](MPI_Comm c, int, int r) { body(c, r); }, trace, world_offset);
 }
 
 #endif
